@@ -31,7 +31,7 @@ ASSUMPTIONS = ["for format ids only whitespace-only strings are documented as re
 BADID = [None, "", " ", "a b", "a\tb", "a\nb", " x", "x ", " ", "a b", "x\u00a0", "\u3000x", "x\x1c", "x\u2028y", "\x85x"]
 BADALG = ["sm3", "md4", "sha", "", "  ", "sha 256", "SHA-257", "sha3256", None]
 BADSIZE = [0, -1, -39993, "12", 1.5, "x"]
-BADDATA = ["none", "int", "bytes", "list", "stringio", "empty", "blank", "missing", "dir", "fifo"]
+BADDATA = ["none", "int", "bytes", "list", "stringio", "empty", "blank", "missing", "dir", "fifo", "spooledtext", "textfile"]
 PIDS = ["p1", "p2", "nobj"]
 
 
@@ -189,6 +189,17 @@ def _mkfifo(work):
 def _mkdata(kind, work):
     if kind == "fifo":
         return _mkfifo(work)
+    if kind == "spooledtext":
+        # a TEXT-mode spooled temporary file (what a web framework hands over for a form field): yields str, is an io.IOBase
+        # since Python 3.11 but neither a TextIOBase nor a BufferedIOBase
+        import tempfile
+        f = tempfile.SpooledTemporaryFile(mode="w+", max_size=1 << 20)
+        f.write("text, not bytes\n")
+        f.seek(0)
+        return f
+    if kind == "textfile":
+        p = common.write_file(os.path.join(work, "text-mode-source.txt"), b"opened in text mode\n")
+        return open(p, "r", encoding="utf-8")
     return {"none": None, "int": 5, "bytes": b"bytes", "list": ["l"], "stringio": io.StringIO("t"), "empty": "",
             "blank": "  ", "missing": os.path.join(work, "no-such-file"), "dir": work}[kind]
 
